@@ -565,6 +565,77 @@ fn raw_bad_connect_case(st: &mut Stats, seed: u64) {
     }
 }
 
+/// Streams the requester was given are streams the acceptor gets, even when it only asks after the tunnel has ended:
+/// acknowledged streams wait in the accept queue with their data.
+fn late_accept_case(st: &mut Stats, seed: u64) {
+    use tokio::io::AsyncReadExt;
+    st.evaluations += 1;
+    st.engine("SIM", 1);
+    let mut rng = Rng64::new(mix(seed, 0x1A7E));
+    let n = rng.range(1, 3) as usize;
+    let cfg = [EpCfg { rwnd: 8, ..EpCfg::default() }, EpCfg { rwnd: 8, stream_buf: *rng.pick(&[4usize, 16]), ..EpCfg::default() }];
+    let how = *rng.pick(&["requester-dropped", "acceptor-side-cut"]);
+    let sh = sim::Shared::new(mix(seed, 15), rng.below(4) as u8);
+    let kind = "late-accept";
+    let cfg2 = cfg.clone();
+    let end = sim::run(&sh, move |sh| async move {
+        let ([e0, e1], _net) = wl::connect(&sh, [&cfg2[0], &cfg2[1]], [0, 0], [None, None], seed, true);
+        let mut given = 0usize;
+        for i in 0..n {
+            if let Ok(mut s) = e0.mux.new_stream_channel(format!("late{i}.").as_bytes(), 40 + i as u16).await {
+                given += 1;
+                s.write_all(format!("data-{i}").as_bytes()).await.ok();
+                s.shutdown().await.ok();
+                // keep the requester's end until the tunnel is gone
+                std::mem::forget(s);
+            }
+        }
+        sim::quiesce().await;
+        sh.api(0, 0, Api::MuxDrop);
+        drop(e0.mux);
+        e0.task.await.ok();
+        let _ = how;
+        e1.task.await.ok();
+        sim::quiesce().await;
+        // only now does the accepting application ask
+        let mut got = Vec::new();
+        for _ in 0..given {
+            match tokio::time::timeout(Duration::from_millis(5), e1.mux.accept_stream_channel()).await {
+                Ok(Ok(mut s)) => {
+                    let mut data = Vec::new();
+                    let rd = tokio::time::timeout(Duration::from_millis(5), s.read_to_end(&mut data)).await.is_ok();
+                    got.push(format!("{}:{}:{}:{}", String::from_utf8_lossy(&s.dest_host), s.dest_port, String::from_utf8_lossy(&data), rd));
+                }
+                Ok(Err(e)) => got.push(format!("err:{}", wl::err_name(&e))),
+                Err(_) => got.push("pending".into()),
+            }
+        }
+        let after = match tokio::time::timeout(Duration::from_millis(5), e1.mux.accept_stream_channel()).await {
+            Ok(Ok(_)) => "extra-stream".to_string(),
+            Ok(Err(e)) => format!("err:{}", wl::err_name(&e)),
+            Err(_) => "pending".into(),
+        };
+        drop(e1.mux);
+        (given, got, after)
+    });
+    let log = sh.take_log();
+    match end {
+        sim::RunEnd::Finished((given, got, after)) => {
+            st.target("late_accept_runs", 1);
+            st.nontrivial(mix(sh.hash(), given as u64));
+            let want: Vec<String> = (0..given).map(|i| format!("late{i}.:{}:data-{i}:true", 40 + i)).collect();
+            if got != want {
+                viol(st, format!("acknowledged-stream-not-delivered|{kind}"), format!("the requester was given {given} streams (each written to and finished) before the tunnel ended; the accepting application, asking afterwards, got {got:?} instead of {want:?}"), kind, seed, &log);
+            }
+            if after != "err:Closed" {
+                viol(st, format!("accept-after-end|{after}|{kind}"), format!("after the queued streams were handed out accept_stream_channel returned {after} instead of Closed"), kind, seed, &log);
+            }
+        }
+        sim::RunEnd::Stalled => viol(st, format!("stall|{kind}"), "stalled".into(), kind, seed, &log),
+        sim::RunEnd::Panicked(m) => st.inconclusive.push(format!("harness panic in c07 {kind}: {m}")),
+    }
+}
+
 pub fn run(p: &Params) -> (Stats, &'static str) {
     std::panic::set_hook(Box::new(|_| {}));
     sim::install_observer();
@@ -586,6 +657,13 @@ pub fn run(p: &Params) -> (Stats, &'static str) {
     let n = p.share(if p.tier_thorough { SPEC.runs_thorough } else { SPEC.runs_quick });
     for i in 0..n {
         let seed = mix(base, i);
+        if i % 16 == 9 {
+            late_accept_case(&mut st, seed);
+            if st.too_many_violations() {
+                break;
+            }
+            continue;
+        }
         match i % 8 {
             0..=2 => general_case(&mut st, seed),
             3 => scripted_case(&mut st, seed, false),
